@@ -317,10 +317,12 @@ def install(interp):
 class LoopState:
     """what an invariant may talk about"""
 
-    def __init__(self, i, n, seq, frame, path, entry_locals, entry_heap):
+    def __init__(self, i, n, seq, frame, path, entry_locals, entry_heap, havoc_locals=None, successor=False):
         self.i, self.n, self.seq = i, n, seq
         self.frame, self.p = frame, path
         self.entry_locals, self.entry_heap = entry_locals, entry_heap
+        self.havoc_locals = havoc_locals          # values of the modified locals right after the havoc
+        self.i_is_successor = successor           # this state is "after one more iteration" (index i-1 was just processed)
 
     def local(self, name):
         return self.frame.locals.get(name)
@@ -429,12 +431,14 @@ def loop_rule(name, inv, locals_=None, fields=(), elem_cls=None, reverse=False):
                                               z3.ArraySort(INT, _sort(SCHEMAS[cls].fields[f]))))
         i = p.fresh_int("i")
         p.assume(z3.And(i >= 0, i <= n))
-        S = LoopState(i, n, seq, frame, p, entry_locals, entry_heap)
         # materialise optional locals (None or object) before assuming the invariant
         for v, (kind, cls) in locals_.items():
             val = frame.locals.get(v)
             if isinstance(val, (OptRef, OptBool)):
                 val.bind(frame, v)
+        havoc_locals = {v: (SymList(frame.locals[v].t, frame.locals[v].cls) if isinstance(frame.locals.get(v), SymList)
+                            else frame.locals.get(v)) for v in locals_}
+        S = LoopState(i, n, seq, frame, p, entry_locals, entry_heap, havoc_locals)
         p.assume_or_end(conj(inv(S)))
         which = p.choose(2, name)
         if which == 0:
@@ -447,7 +451,7 @@ def loop_rule(name, inv, locals_=None, fields=(), elem_cls=None, reverse=False):
                 pass
             except _Break:
                 return None                # leaves the loop with the current state
-            S1 = LoopState(i + 1, n, seq, frame, p, entry_locals, entry_heap)
+            S1 = LoopState(i + 1, n, seq, frame, p, entry_locals, entry_heap, havoc_locals, True)
             for label, b in items(inv(S1)):
                 p.require(f"{name}/{label}/preserved", sym.zbool(b), kind="loop")
             raise PathEnd("end of loop body path")
